@@ -35,6 +35,11 @@ def judge(case, ctx):
                                                  "has_zero_item": 0 in case["values"], "cg_mask": case.get("cg_mask")})
         return
     if r.exc is not None:
+        if alg == "cbldm" and isinstance(r.exc, RecursionError) and len(case["values"]) >= 900:
+            # documented limitation of cbldm ("the length must be at most 900-1000 due to stack limitations"): an explicit error, not a missing or wrong result
+            ctx.counters["cbldm_stack_limit_refusals"] += 1
+            ctx.held(cls="cbldm/stack_limit")
+            return
         ctx.violation("exception", alg, case, C.exc_witness(r, case))
         return
     bad = C.check_partition_result(r.value, names, vmap, case["k"], alg)
@@ -58,6 +63,11 @@ def run_shard(spec, rng, ctx):
         case = C.draw_partition_case(rng, alg=alg, classes=CLASSES)
         judge(case, ctx)
         i += 1
+        if i % 500 == 250:
+            # far corner: cbldm around its documented stack limit (about 1000 items). It must either refuse explicitly or return a true partition.
+            n = rng.randint(1000, 1300)
+            judge({"kind": "partition", "alg": "cbldm", "k": 2, "values": [rng.randint(0, 1000) for _ in range(n)], "cls": "cbldm_stack_limit",
+                   "pres": rng.choice(["list", "dict_str"]), "pres_seed": rng.randrange(1 << 30), "cbldm_d": None}, ctx)
         if i % 200 == 0:
             # the known-finding region (rnp, numbins >= 6) at small volume: whatever rnp RETURNS there must still be a partition, and a failure
             # must match the finding's classifier; anything else is reported
